@@ -176,6 +176,14 @@ def staleness(ctx, op, cls, pre):
             again.append(_eq_all(ctx, getattr(sig, r), first[r]))
             again.append(_eq_all(ctx, getattr(fresh2, r), first[r]))
         ctx.claim('reads_idempotent_and_non_interfering', S.sym_and(*again), (op, tag))
+        # the same history on a second object whose FIRST reads after the operation come in the opposite order (one read
+        # may repair what another one would have shown stale, e.g. the spectrum regenerating the frequency axis)
+        sig_r = _make(lib, cls, base)
+        for g in groups:
+            _read_group(sig_r, g)
+        ops[op](sig_r)
+        for r in reversed(reads):
+            ctx.claim('equals_fresh_object:' + r, _eq_all(ctx, getattr(sig_r, r), first[r]), (op, tag, 'reverse read order'))
 
 
 def pairs(ctx, op1, op2, cls='AccSignal'):
